@@ -333,6 +333,18 @@ def gen_case(rng, idx, big):
             if any(o is not p and o["t"] == q["t"] and o["pos"] == q["pos"] and o["shift"] == q["shift"] for o in B):
                 continue                      # a second copy at the same place would be a distance tie
             p["t"], p["pos"], p["shift"] = q["t"], list(q["pos"]), list(q["shift"])
+            w = rng.random()
+            if w < 0.45:
+                # ... whose orientation differs from the query's by a tiny non-zero rotation (1e-3 .. 0.05 degree): the
+                # angular distance is that angle, not 0
+                ax = np.array([rng.gauss(0, 1) for _ in range(3)])
+                ax = ax / np.linalg.norm(ax)
+                th = math.radians(rng.choice([1e-3, 5e-3, 0.025, 0.05, rng.uniform(1e-3, 0.05)]))
+                K = np.array([[0, -ax[2], ax[1]], [ax[2], 0, -ax[0]], [-ax[1], ax[0], 0]])
+                dR = np.eye(3) + math.sin(th) * K + (1 - math.cos(th)) * (K @ K)
+                p["ang"] = [float(x) for x in geo.zxz_from_matrix(geo.zxz_matrix(*q["ang"]) @ dR)]
+            elif w < 0.55:
+                p["ang"] = list(q["ang"])          # exactly the query's orientation: angular distance 0
     if B is not None and not samepos and rng.random() < 0.5:
         # (not together with coincident positions: zero-offset rows of equal numbers could not be told apart)
         # numbering restarts at 1 in every tomogram: numbers repeat across tomograms and are shared by the two lists
